@@ -1100,7 +1100,7 @@ func (m *Machine) CanRemove(states S, args A) Result {
 
 // CanRemove1 is [Machine.CanRemove] for a single state.
 func (m *Machine) CanRemove1(state string, args A) Result {
-	return m.CanRemove(S{state}, nil)
+	return m.CanRemove(S{state}, args)
 }
 
 // PanicToErr will catch a panic and add the StateException state. Needs to
